@@ -4,9 +4,14 @@ from ._write_common import run_common
 
 def run(ctx):
     q = ctx.tier == "quick"
-    run_common(ctx, "C04", ["SfProps.C04", "SfProps.C04Caf", "SfProps.C04W64", "SfProps.C04Aiff"], stride=2 if q else 1, l1_scripts=250 if q else 2500)
+    run_common(ctx, "C04", ["SfProps.C04", "SfProps.C04Caf", "SfProps.C04W64", "SfProps.C04Aiff", "SfProps.C04Wavex", "SfProps.C04Rf64"], stride=2 if q else 1, l1_scripts=250 if q else 2500)
+    run_common(ctx, "C04", ["SfProps.C04", "SfProps.C04Caf", "SfProps.C04W64", "SfProps.C04Aiff", "SfProps.C04Htk", "SfProps.C04Wve", "SfProps.C04Mpc2k", "SfProps.C04Pvf", "SfProps.C04Mat4"], stride=2 if q else 1, l1_scripts=250 if q else 2500)
     if not getattr(ctx, "replay", None):
         from .. import cafw64
         cafw64.campaign(ctx)      # CAF / W64 byte-exact container models (lean/SfModel/Caf.lean, W64.lean)
+        from .. import wavexrf64
+        wavexrf64.campaign(ctx)   # WAVEX / RF64 write-side models (lean/SfModel/Wavex.lean, Rf64.lean)
         from .. import aiff          # AIFF / AIFF-C container model (lean/SfModel/Aiff.lean) against the library
         aiff.run(ctx, found=bool(ctx.violations))
+        from .. import small2       # HTK / WVE / MPC2K / PVF / MAT4 / MAT5 / XI container models (lean/SfModel/Small2.lean + one file each)
+        small2.run(ctx, found=bool(ctx.violations))
